@@ -10,7 +10,13 @@
  *   epoll_ctl()           records whether write interest (EPOLLOUT) is registered for the user's fd.
  * Every output line is tagged `u<k>`.
  *
- * Per-user commands: connect / sendres / write / vwrite / flush / eflush / close / dump / snoop <j> / unsnoop
+ * wbeg / wend lines come from the add_message hook of src/comm.c (NEOLITH_VERIF): every call is seen, also the ones
+ * made by the driver itself (telnet negotiation) and by LPC code (receive / tell_object from a snooper's receive_snoop).
+ * The `close` line is printed by the interposed close() when remove_interactive closes the user's descriptor.
+ *
+ * Per-user commands: connect / sendres / write / vwrite / flush / eflush / close / dump / snoop <j> / unsnoop /
+ *   react <tok>,<tok>..  (scripted reactions of this user's receive_snoop, one per call: e = echo the text to itself,
+ *   t<j> = tell user j, d<j> = destruct user j, x = raise an error, n = nothing)
  * Commands that make the driver visit every user: cycle / wready / flushall / peerclose / peerfin
  * (see props/c14.py for the trace format).
  */
@@ -113,6 +119,7 @@ typedef struct
 } user_t;
 static user_t U[MAXU + 1];
 static int c14_console_user = 0;	/* number of the console user, 0 = none */
+static int c14_reactive = 0;	/* a `react` command was given: a write can reach every user, all states are shown after it */
 
 static void q_push (user_t * u, sendres_t r)
 {
@@ -197,6 +204,53 @@ int epoll_ctl (int epfd, int op, int fd, struct epoll_event *ev)
   return (int) syscall (SYS_epoll_ctl, epfd, op, fd, ev);
 }
 
+/* remove_interactive() closes the user's descriptor: the `close` line of the trace */
+int close (int fd)
+{
+  int k = user_of_fd (fd);
+  if (!k && c14_console_user && fd == STDIN_FILENO && all_users && all_users[0] && (all_users[0]->iflags & CLOSING)
+      && U[c14_console_user].ob == all_users[0]->ob)
+    k = c14_console_user;
+  if (k)
+    {
+      int save = c14_cur;
+      c14_cur = k;
+      out ("close");
+      c14_cur = save;
+      U[k].userfd = -1;		/* the fd number may be reused */
+    }
+  return (int) syscall (SYS_close, fd);
+}
+
+/* ---- add_message hook ---------------------------------------------------- */
+
+static int c14_connecting = 0;	/* user whose connect is running (its object is not known yet) */
+
+static void c14_am_hook (object_t * who, const char *text, int vmessage, int phase)
+{
+  int k = 0, save = c14_cur;
+  if (!who)
+    return;
+  for (int i = 1; i <= MAXU; i++)
+    if (U[i].created && U[i].ob == who)
+      k = i;
+  if (!k && c14_connecting && who->interactive
+      && (U[c14_connecting].console ? (all_users && who->interactive == all_users[0]) : who->interactive->fd == U[c14_connecting].userfd))
+    k = c14_connecting;
+  if (!k)
+    return;
+  c14_cur = k;
+  if (phase == 0)
+    {
+      char *h = hexof ((const unsigned char *) text, strlen (text));
+      out ("wbeg %c %s", vmessage ? 'v' : 'm', h);
+      free (h);
+    }
+  else
+    out ("wend");
+  c14_cur = save;
+}
+
 /* ---- set-up -------------------------------------------------------------- */
 
 static int nonblock (int fd)
@@ -225,12 +279,17 @@ static void c14_setup (int k, int kind)	/* 0 ascii, 1 telnet, 2 console */
     g_runtime = async_runtime_init ();
   if (!g_runtime)
     fail ("runtime");
+  verif_add_message_hook = c14_am_hook;
   eval_cost = CONFIG_INT (__MAX_EVAL_COST__);
   u->userfd = -1;
+  c14_connecting = k;
   if (kind == 2)
     {
       if (c14_console_user)
         fail ("second console");
+      u->console = 1;
+      u->created = 1;
+      c14_console_user = k;	/* write(1, ..) is this user's socket from now on */
       /* the real console-mode connect: new_interactive (STDIN_FILENO) -> slot 0, master connect(), logon() */
       VH_TRY (econ)
         init_console_user (0);
@@ -260,19 +319,6 @@ static void c14_setup (int k, int kind)	/* 0 ascii, 1 telnet, 2 console */
       port.kind = kind == 1 ? PORT_TELNET : PORT_ASCII;
       port.port = 4000;
       port.fd = INVALID_SOCKET_FD;
-      if (kind == 1)
-        {
-          /* setup_accepted_connection add_message()s these itself and then flushes; none of them can trigger a send
-           * (12 bytes into an empty ring), so the write markers can be printed up front */
-          char *neg[] = { telnet_no_echo, telnet_do_ttype, telnet_do_naws, telnet_do_linemode };
-          for (int i = 0; i < 4; i++)
-            {
-              char *h = hexof ((unsigned char *) neg[i], strlen (neg[i]));
-              out ("wbeg m %s", h);
-              out ("wend");
-              free (h);
-            }
-        }
       VH_TRY (econ)
         setup_accepted_connection (&port, u->fd[0], &addr);
       VH_CATCH (econ)
@@ -286,6 +332,7 @@ static void c14_setup (int k, int kind)	/* 0 ascii, 1 telnet, 2 console */
       u->ob = ip->ob;
     }
   u->created = 1;
+  c14_connecting = 0;
   add_ref (u->ob, "c14 harness");
   snprintf (num, sizeof num, "%d", k);
   a[0] = num;
@@ -300,8 +347,7 @@ static void st_line (int k, int existed)
   interactive_t *ip = u->ob->interactive;
   int save = c14_cur;
   c14_cur = k;
-  if (existed && !ip)
-    out ("close");
+  (void) existed;
   if (!ip)
     {
       u->userfd = -1;		/* the fd number is closed and may be reused */
@@ -394,7 +440,7 @@ static int c14_cmd (char *line)
 #define IS(s) (clen == strlen (s) && !strncmp (line, s, clen))
   if (!(IS ("connect") || IS ("sendres") || IS ("write") || IS ("vwrite") || IS ("flush") || IS ("eflush") || IS ("cycle")
         || IS ("wready") || IS ("flushall") || IS ("close") || IS ("peerclose") || IS ("peerfin") || IS ("dump")
-        || IS ("snoop") || IS ("unsnoop")))
+        || IS ("snoop") || IS ("unsnoop") || IS ("react")))
     return 0;
   while (arg && *arg == ' ')
     arg++;
@@ -418,6 +464,14 @@ static int c14_cmd (char *line)
     }
   c14_setup (k, 0);
 
+  if (IS ("react"))
+    {
+      char *a[1] = { arg ? arg : "" };
+      c14_reactive = 1;
+      if (!(u->ob->flags & O_DESTRUCTED) && vh_apply_str (u->ob, "add_react", 1, a, 0, 0))
+        out ("lpcerr");
+      return 1;
+    }
   if (IS ("dump"))
     {
       interactive_t *ip = u->ob->interactive;
@@ -466,21 +520,17 @@ static int c14_cmd (char *line)
       char *bytes = unhex (arg ? arg : "-");
       if (!bytes)
         return 0;
-      {
-        char *h = hexof ((unsigned char *) bytes, strlen (bytes));
-        out ("wbeg %c %s", v ? 'v' : 'm', h);
-        free (h);
-      }
+      global = c14_reactive;
       VH_TRY (econ)
         if (v)
           add_vmessage (u->ob, "%s", bytes);
         else
           add_message (u->ob, bytes);
       VH_CATCH (econ)
+        c14_cur = k;
         out ("lpcerr");
       VH_END
       c14_cur = k;
-      out ("wend");
       free (bytes);
     }
   else if (IS ("flush"))
@@ -498,8 +548,18 @@ static int c14_cmd (char *line)
     {
       /* the flush_messages() efun, called from LPC: with the user object / without argument (every user) */
       char *a[1] = { IS ("flushall") ? "all" : "me" };
+      object_t *caller = u->ob;
       global = IS ("flushall");
-      if (vh_apply_str (u->ob, "do_flush", 1, a, 0, 0))
+      /* a user object destructed by a scripted reaction cannot run LPC code (this_object() is 0 there): flush_messages()
+       * without argument is then called from another user's object; with argument there is nothing to flush */
+      if (caller->flags & O_DESTRUCTED)
+        {
+          caller = 0;
+          for (int i = 1; global && i <= MAXU; i++)
+            if (!caller && U[i].created && !(U[i].ob->flags & O_DESTRUCTED))
+              caller = U[i].ob;
+        }
+      if (caller && vh_apply_str (caller, "do_flush", 1, a, 0, 0))
         out ("lpcerr");
     }
   else if (IS ("cycle"))
